@@ -38,7 +38,10 @@ impl ConfigFile {
             if !line.is_empty() && line != "\0" {
                 if line.contains('<') || line.contains('>') {
                     // Category
-                    let name = &line[1..line.len() - 1];
+                    // A damaged line (too short, or cut inside a multi-byte character) has no name to take.
+                    let Some(name) = line.get(1..line.len().saturating_sub(1)) else {
+                        continue;
+                    };
                     current_category = Some(String::from(name));
                     cfg.categories.push(String::from(name));
                 } else if let (Some(category), Some((key, value))) =
